@@ -429,3 +429,146 @@ pub fn mapping_many_classes(rng: &mut Rng, n: usize) -> Vec<u8> {
     }
     out.into_bytes()
 }
+
+fn name_from(rng: &mut Rng, pool: &[String], extra: &[&str]) -> String {
+    if !pool.is_empty() && rng.chance(3, 4) {
+        rng.pick_ref(pool).clone()
+    } else {
+        rng.pick(extra).to_string()
+    }
+}
+
+const MESSAGES: &[&str] = &["boom", "a: b", "Caused by: x", "at a.b(c:1)", "é ünï", "x: y: z", "  padded  ", "", "tab\there"];
+
+/// one line of Java stack trace text over the name universe of a mapping
+pub fn trace_line(rng: &mut Rng, u: &Universe) -> String {
+    let class = name_from(rng, &u.classes, &["zz.Unknown", "q.R$S", "é.Z"]);
+    let method = name_from(rng, &u.methods, &["nosuch", "<init>"]);
+    let line = query_line(rng, u);
+    let file = rng.pick(&["SourceFile", "Foo.java", "Unknown Source", "é.kt", ""]);
+    match rng.below(16) {
+        0 | 1 => format!("{}: {}", class, rng.pick(MESSAGES)),
+        2 => class,
+        3 => format!("Caused by: {}: {}", class, rng.pick(MESSAGES)),
+        4 => format!("Caused by: {}", class),
+        5..=8 => format!("    at {}.{}({}:{})", class, method, file, line),
+        9 => format!("\tat {}.{}({}:{})", class, method, file, line),
+        10 => format!("\tat {}.{}(Native Method)", class, method),
+        11 => format!("    ... {} more", rng.below(20)),
+        12 => String::new(),
+        13 => format!("  Caused by: {}", class),
+        14 => format!("at {}.{}({}:{})  ", class, method, file, line),
+        _ => format!("{} says at {}.{}({}:{}) é", rng.pick(MESSAGES), class, method, file, line),
+    }
+}
+
+pub fn trace_text(rng: &mut Rng, u: &Universe) -> String {
+    let mut out = String::new();
+    let n = rng.below(9);
+    let crlf = rng.chance(1, 4);
+    for k in 0..n {
+        out.push_str(&trace_line(rng, u));
+        if k + 1 < n || rng.chance(3, 4) {
+            out.push_str(if crlf { "\r\n" } else { "\n" });
+        }
+    }
+    out
+}
+
+fn opt_json(s: Option<&str>) -> Value {
+    match s {
+        None => json!([]),
+        Some(x) => json!([bytes_json(x)]),
+    }
+}
+
+/// a typed trace (levels, outermost first) over the universe; `canonical` keeps it inside the
+/// round-trip domain of C17
+pub fn typed_levels(rng: &mut Rng, u: &Universe, canonical: bool) -> Value {
+    let depth = rng.range(1, 5);
+    let mut levels = vec![];
+    for d in 0..depth {
+        let exc = if d > 0 || rng.chance(3, 4) || !canonical && rng.chance(1, 2) {
+            let class = name_from(rng, &u.classes, &["zz.Unknown", "q.R$S", "é.Z", "a:"]);
+            let msg = if rng.chance(1, 2) { None } else { Some(rng.pick(&["boom", "a: b", "Caused by: x", "at a.b(c:1)", "é ü", "x: y: z"])) };
+            json!([{"class": bytes_json(&class), "message": opt_json(msg)}])
+        } else {
+            json!([])
+        };
+        let mut frames = vec![];
+        let many = rng.chance(1, 10);
+        let nf = if d == 0 && exc == json!([]) { rng.range(1, 4) } else { rng.below(if many { 21 } else { 4 }) };
+        for _ in 0..nf {
+            let class = name_from(rng, &u.classes, &["zz.Unknown", "q.R$S", "é.Z"]);
+            let method = name_from(rng, &u.methods, &["nosuch", "<init>"]).replace('.', "_");
+            let line = query_line(rng, u);
+            let file = if canonical || rng.chance(3, 4) { Some(rng.pick(&["SourceFile", "Foo.java", "", "x(y)", "é.kt"])) } else { None };
+            frames.push(json!({"class": bytes_json(&class), "method": bytes_json(&method), "line": dec_json(line),
+                               "file": opt_json(file), "params": []}));
+        }
+        levels.push(json!({"exception": exc, "frames": frames}));
+    }
+    Value::Array(levels)
+}
+
+const DESC_OBJ: &[&str] = &["x", "I", "ib/Long", "é/b", "x/Long", "a", "b", "java/lang/String", "L", "a/b$c"];
+
+pub fn desc_type(rng: &mut Rng, u: &Universe, allow_void: bool) -> String {
+    let mut s = String::new();
+    for _ in 0..(if rng.chance(1, 3) { rng.range(1, 3) } else { 0 }) {
+        s.push('[');
+    }
+    match rng.below(if allow_void { 12 } else { 11 }) {
+        0..=4 => s.push(rng.pick(&['Z', 'B', 'C', 'S', 'I', 'J', 'F', 'D'])),
+        5..=10 => {
+            s.push('L');
+            if !u.classes.is_empty() && rng.chance(1, 2) {
+                s.push_str(&rng.pick_ref(&u.classes).replace('.', "/"));
+            } else {
+                s.push_str(rng.pick(DESC_OBJ));
+            }
+            s.push(';');
+        }
+        _ => return "V".to_string(),
+    }
+    s
+}
+
+/// G-desc: valid descriptors with 0..6 parameters, single-edit corruptions, arbitrary strings
+pub fn descriptor(rng: &mut Rng, u: &Universe) -> String {
+    let mut s = String::from("(");
+    for _ in 0..rng.below(7) {
+        s.push_str(&desc_type(rng, u, false));
+    }
+    s.push(')');
+    s.push_str(&desc_type(rng, u, true));
+    match rng.below(10) {
+        0..=5 => s,
+        6 | 7 => {
+            // single edit on a character boundary
+            let idxs: Vec<usize> = s.char_indices().map(|(i, _)| i).collect();
+            let i = rng.pick(&idxs);
+            let ch = s[i..].chars().next().unwrap();
+            let mut t = String::new();
+            t.push_str(&s[..i]);
+            match rng.below(3) {
+                0 => {}
+                1 => t.push(rng.pick(&['(', ')', ';', 'L', '[', 'I', 'V', 'é'])),
+                _ => {
+                    t.push(rng.pick(&['(', ')', ';', 'L', '[', 'I', 'V', 'é']));
+                    t.push(ch);
+                }
+            }
+            t.push_str(&s[i + ch.len_utf8()..]);
+            t
+        }
+        _ => {
+            let pieces: &[&str] = &["(", ")", "L", ";", "[", "I", "V", "é", "𝕏", "/", "x", " ", "Lé;", "()", "\u{a0}"];
+            let mut t = String::new();
+            for _ in 0..rng.below(8) {
+                t.push_str(rng.pick(pieces));
+            }
+            t
+        }
+    }
+}
